@@ -556,7 +556,97 @@ fn part_b(ctx: &Ctx, tier: Tier, samples: &Samples) -> (u64, u64, u64) {
     (execs.load(Relaxed), points.load(Relaxed), coalesced.load(Relaxed))
 }
 
+// ---------------------------------------------------------------------------------------------
+// (c) interactive shell: a trapped signal delivered in the same batch as the SIGINT that
+// interrupts a blocked built-in (or any other command) still runs its action exactly once.
+
+const INTERACTIVE_SCRIPTS: &[&str] = &[
+    "trap 'p T' USR1\np a\nmkpipe 8 9; p go; read x <&8; p sameline\np b\np end\n",
+    "trap 'p T' USR1\np a\nmkpipe 8 9; p go; cat <&8; p sameline\np b\np end\n",
+    "trap 'p T' USR1\np a\nf() { read x; p inf; }\nmkpipe 8 9; p go; f <&8; p sameline\np b\np end\n",
+    "trap 'p T' USR1 TERM\np a\nmkpipe 8 9; p go; { read x <&8; p sameline; }\np b\np end\n",
+    "trap 'p T' USR1\np a\nmkpipe 8 9; p go; x=1 read y <&8 && p sameline\np b\np end\n",
+];
+
+fn part_c(ctx: &Ctx) -> (u64, u64) {
+    let execs = AtomicU64::new(0);
+    let judged = AtomicU64::new(0);
+    let (usr1, int) = (signo("USR1"), signo("INT"));
+    INTERACTIVE_SCRIPTS.par_iter().for_each(|text| {
+        let mut setup = Setup::script("");
+        setup.argv = vec!["yash".into(), "-i".into(), "-s".into()];
+        setup.stdin = Some(text.as_bytes().to_vec());
+        let opts = |at: Vec<(usize, i32)>| RunOpts { inject: Some(Inject { at, pid: 2 }), ..Default::default() };
+        let base = run_once(&setup, &opts(vec![]));
+        execs.fetch_add(1, Relaxed);
+        // undisturbed, the built-in blocks for ever on the pipe the shell itself keeps open
+        if base.end != End::Deadlock || !base_trace(&base).iter().any(|m| m.starts_with("a:")) {
+            ctx.violation("c11:interactive-baseline", &format!("undisturbed interactive run: {:?}, trace {:?}, stderr {:?}", base.end, base_trace(&base), base.stderr), json!({"part": "c", "script": text}));
+            return;
+        }
+        let n = base.target_taps;
+        // from the marker `go` on, the line that contains the blocking built-in is being executed
+        let Some(k0) = base.trace.iter().find(|e| e.pid == 2 && e.text.starts_with("go:")).map(|e| e.at_tap) else {
+            ctx.violation("c11:interactive-baseline", "marker `go` missing in the undisturbed run", json!({"part": "c", "script": text}));
+            return;
+        };
+        for k in k0..n {
+            for batch in [vec![(k, usr1), (k, int)], vec![(k, int), (k, usr1)], vec![(k, usr1), (k + 1, int)], vec![(k, int)]] {
+                let same_batch = batch.iter().all(|(at, _)| *at == k);
+                let r = run_once(&setup, &opts(batch.clone()));
+                execs.fetch_add(1, Relaxed);
+                let case = || json!({"part": "c", "script": text, "inject": batch});
+                if let Some(p) = &r.panic {
+                    ctx.violation("c11:panic", &format!("panic: {p}"), case());
+                    continue;
+                }
+                // SIGINT that arrived before the blocking command started interrupts an earlier
+                // command line; the built-in then blocks for ever as in the undisturbed run
+                if r.end == End::Deadlock {
+                    continue;
+                }
+                judged.fetch_add(1, Relaxed);
+                let tr = base_trace(&r);
+                let nt = tr.iter().filter(|m| m.starts_with("T:")).count();
+                let want = batch.iter().filter(|(_, s)| *s == usr1).count();
+                // Ctrl-C also interrupts a trap action that has just started: when SIGINT comes
+                // after SIGUSR1 has been taken, the action may be cut short
+                let count_ok = if same_batch { nt == want } else { nt <= want };
+                if !matches!(r.end, End::Exited(_)) {
+                    ctx.violation("c11:interactive-end", &format!("interactive shell ended {:?}; trace {tr:?}", r.end), case());
+                } else if !tr.iter().any(|m| m.starts_with("end:")) || !tr.iter().any(|m| m.starts_with("b:")) {
+                    ctx.violation("c11:interactive-lines-lost", &format!("SIGINT discarded more than the interrupted command line: trace {tr:?}"), case());
+                } else if tr.iter().any(|m| m.starts_with("sameline:") || m.starts_with("inf:")) {
+                    ctx.violation("c11:interactive-not-interrupted", &format!("the rest of the interrupted command line ran: trace {tr:?}"), case());
+                } else if !count_ok {
+                    ctx.violation(
+                        "c11:trap-lost-with-sigint",
+                        &format!("SIGUSR1 delivered {want} time(s) together with the interrupting SIGINT but its trap ran {nt} time(s); trace {tr:?}"),
+                        case(),
+                    );
+                }
+            }
+        }
+    });
+    (execs.load(Relaxed), judged.load(Relaxed))
+}
+
 pub fn replay(case: &serde_json::Value) -> i32 {
+    if case["part"] == "c" {
+        let text = case["script"].as_str().unwrap();
+        let mut setup = Setup::script("");
+        setup.argv = vec!["yash".into(), "-i".into(), "-s".into()];
+        setup.stdin = Some(text.as_bytes().to_vec());
+        let at: Vec<(usize, i32)> = case["inject"].as_array().map(|a| a.iter().map(|p| (p[0].as_u64().unwrap() as usize, p[1].as_i64().unwrap() as i32)).collect()).unwrap_or_default();
+        let r = vsh::run_once(&setup, &RunOpts { inject: Some(Inject { at, pid: 2 }), log_taps: true, ..Default::default() });
+        let taps: Vec<String> = r.tap_log.iter().filter(|(p, _)| *p == 2).enumerate().skip(80).map(|(i, (_, n))| format!("{i}:{n}")).collect();
+        for e in &r.trace {
+            println!("  [{} @{}] {}", e.pid, e.at_tap, e.text);
+        }
+        println!("system calls of the shell from #80: {}", taps.join(" "));
+        println!("interactive script:\n{text}\nend={:?}\ntrace={:?}\nstderr={}", r.end, base_trace(&r), r.stderr);
+        return 1;
+    }
     if case["part"] == "b" {
         let script = case["script"].as_str().unwrap();
         let sig = signo(case["signal"].as_str().unwrap());
@@ -574,17 +664,20 @@ pub fn run(tier: Tier) -> i32 {
     let samples = Samples::new(10);
     let (states, transitions, closed) = part_a(&ctx, tier, &samples);
     let (execs, points, coalesced) = part_b(&ctx, tier, &samples);
+    let (c_execs, c_judged) = part_c(&ctx);
     let cov = json!({
+        "part_c_interactive_executions": c_execs,
+        "part_c_interactive_executions_judged": c_judged,
         "states": states,
         "transitions": transitions,
-        "traces_validated_against_impl": transitions + execs,
+        "traces_validated_against_impl": transitions + execs + c_execs,
         "samples": samples.take(),
         "part_a_closure_reached_in_every_configuration": closed,
         "part_b_executions": execs,
         "part_b_syscall_injection_points": points,
         "part_b_double_deliveries_that_coalesced": coalesced,
         "part_b_executions_in_which_the_signal_interrupted_wait": INTERRUPTED_WAITS.load(Relaxed),
-        "explanation": "(a) BFS by history replay over the real TrapSet bound to a real Concurrent<VirtualSystem>: ops = set_action(Default|Ignore|Command, override f/t) per signal, peek_state, enable/disable each internal disposition group, enter_subshell with each option pair; per signal class {INT,QUIT,TERM,CHLD,TSTP,USR1,KILL,STOP} x initial disposition {default, ignored} and 4 signal pairs; after every op the disposition installed in the simulated process and its signal mask are read back and compared with the reference merge max(internal, user) (caught <=> blocked), return values compared, states merged on (model, Debug of the trap set, installed dispositions). (b) 8 scripts with traps: the signal is raised on the shell at every simulated system call index k (and at pairs k1,k2); the markers outside the trap and the exit status must equal the undisturbed run, the trap must run exactly once per delivery (1..n for n coalescing deliveries)",
+        "explanation": "(a) BFS by history replay over the real TrapSet bound to a real Concurrent<VirtualSystem>: ops = set_action(Default|Ignore|Command, override f/t) per signal, peek_state, enable/disable each internal disposition group, enter_subshell with each option pair; per signal class {INT,QUIT,TERM,CHLD,TSTP,USR1,KILL,STOP} x initial disposition {default, ignored} and 4 signal pairs; after every op the disposition installed in the simulated process and its signal mask are read back and compared with the reference merge max(internal, user) (caught <=> blocked), return values compared, states merged on (model, Debug of the trap set, installed dispositions). (b) 8 scripts with traps: the signal is raised on the shell at every simulated system call index k (and at pairs k1,k2); the markers outside the trap and the exit status must equal the undisturbed run, the trap must run exactly once per delivery (1..n for n coalescing deliveries). (c) interactive shells (-i) whose built-in (read, cat, a function reading) blocks on a pipe: SIGINT alone, SIGUSR1+SIGINT in either order at the same system call, and at consecutive calls, at every system call index; executions in which the built-in was interrupted must run the USR1 trap exactly once, discard the rest of the interrupted line only, and go on with the next lines",
     });
     ctx.finish(cov, &["signals are injected at syscall boundaries of the simulator (complete because caught signals are blocked outside select)", "reference merge model trusted"])
 }
